@@ -5,6 +5,7 @@ import (
 	"errors"
 	"fmt"
 	"io"
+	"os"
 	"strings"
 
 	"github.com/microcosm-cc/bluemonday"
@@ -86,7 +87,13 @@ func writeClass(s string) string {
 }
 
 // faultReader delivers data up to offset `at`, then a non-EOF error.
+// readErrors: the injected error value varies; standard library sentinels are legitimate
+// non-EOF failures too (a truncated gzip stream yields io.ErrUnexpectedEOF, a closed pipe
+// io.ErrClosedPipe) and must be reported like any other.
+var readErrors = []error{errInjected, io.ErrUnexpectedEOF, io.ErrClosedPipe, io.ErrNoProgress, io.ErrShortBuffer, os.ErrDeadlineExceeded, fmt.Errorf("wrapped: %w", io.EOF)}
+
 type faultReader struct {
+	err      error
 	data     []byte
 	at       int
 	pos      int
@@ -97,8 +104,11 @@ type faultReader struct {
 
 func (r *faultReader) Read(p []byte) (int, error) {
 	r.reads++
+	if r.err == nil {
+		r.err = errInjected
+	}
 	if r.pos >= r.at {
-		return 0, errInjected
+		return 0, r.err
 	}
 	n := r.at - r.pos
 	if r.chunk > 0 && n > r.chunk {
@@ -110,7 +120,7 @@ func (r *faultReader) Read(p []byte) (int, error) {
 	copy(p, r.data[r.pos:r.pos+n])
 	r.pos += n
 	if r.pos >= r.at && r.withData {
-		return n, errInjected
+		return n, r.err
 	}
 	return n, nil
 }
@@ -227,7 +237,7 @@ func runC16(ctx *core.Ctx) {
 		// reader faults at every offset
 		for o := 0; o <= len(in); o++ {
 			for v := 0; v < 4; v++ {
-				fr := &faultReader{data: []byte(in), at: o, withData: v&1 == 1}
+				fr := &faultReader{data: []byte(in), at: o, withData: v&1 == 1, err: readErrors[(o+v)%len(readErrors)]}
 				if v&2 != 0 {
 					fr.chunk = 1 + cs.R.Intn(7)
 				}
@@ -242,7 +252,7 @@ func runC16(ctx *core.Ctx) {
 					// with the complete input delivered before the error, what was written must be a prefix
 					cs.Violate("C16:reader-fault:not-a-prefix", fmt.Sprintf("source failed after the whole input; written %q is not a prefix of %q", core.Clip(got, 200), core.Clip(want, 200)), wit(map[string]interface{}{"offset": o}))
 				}
-				fr2 := &faultReader{data: []byte(in), at: o, withData: v&1 == 1, chunk: fr.chunk}
+				fr2 := &faultReader{data: []byte(in), at: o, withData: v&1 == 1, chunk: fr.chunk, err: fr.err}
 				b := env.Pol.SanitizeReader(fr2)
 				cs.Eval()
 				if b == nil || b.Len() != 0 {
@@ -301,7 +311,7 @@ func runC16(ctx *core.Ctx) {
 		offs = append(offs, 0, 1, len(in)-1, len(in))
 		for _, o := range offs {
 			for v := 0; v < 4; v++ {
-				fr := &faultReader{data: []byte(in), at: o, withData: v&1 == 1}
+				fr := &faultReader{data: []byte(in), at: o, withData: v&1 == 1, err: readErrors[(o+v)%len(readErrors)]}
 				if v&2 != 0 {
 					fr.chunk = 512 + cs.R.Intn(4096)
 				}
@@ -316,7 +326,7 @@ func runC16(ctx *core.Ctx) {
 				if o == len(in) && !strings.HasPrefix(want, buf.String()) {
 					cs.Violate("C16:reader-fault:not-a-prefix", fmt.Sprintf("source failed after the whole %d-byte input; what was written is not a prefix of the fault-free output", len(in)), map[string]interface{}{"policy": spec.Describe(env.Ops), "ops": env.Ops, "input": core.Show(core.Clip(in, 3000))})
 				}
-				fr2 := &faultReader{data: []byte(in), at: o, withData: v&1 == 1, chunk: fr.chunk}
+				fr2 := &faultReader{data: []byte(in), at: o, withData: v&1 == 1, chunk: fr.chunk, err: fr.err}
 				if bb := env.Pol.SanitizeReader(fr2); bb == nil || bb.Len() != 0 {
 					cs.Violate("C16:reader-fault:nonempty-buffer:SanitizeReader", fmt.Sprintf("source (%d bytes) failed at offset %d but SanitizeReader returned a non-empty buffer", len(in), o),
 						map[string]interface{}{"policy": spec.Describe(env.Ops), "ops": env.Ops, "input": core.Show(core.Clip(in, 3000)), "offset": o})
